@@ -88,20 +88,29 @@ fn main() {
             let seed: u64 = arg(&args, "--seed").unwrap().parse().unwrap();
             let from: u64 = arg(&args, "--from").unwrap().parse().unwrap();
             let to: u64 = arg(&args, "--to").unwrap().parse().unwrap();
-            let golden = load_golden(&arg(&args, "--golden").unwrap());
+            let golden_path = arg(&args, "--golden").unwrap();
+            load_golden(&golden_path);
             let mut calls = 0u64;
             let mut distinct = std::collections::BTreeSet::new();
             for run in from..to {
                 rt::RNG.store(seed ^ run.wrapping_mul(0xD6E8FEB86659FD93), std::sync::atomic::Ordering::Relaxed);
                 let n = 20 + rt::below(180);
-                let plan: Vec<usize> = (0..n).map(|_| rt::below(scenario::NSPECS)).collect();
+                let plan: Vec<usize> = (0..n).map(|_| scenario::pick_spec()).collect();
                 calls += n as u64;
                 let mut h: u64 = 0xcbf29ce484222325;
                 for p in &plan {
                     h = (h ^ *p as u64).wrapping_mul(0x100000001b3);
                 }
                 distinct.insert(h);
-                if let Err(m) = scenario::history(golden, &plan) {
+                // every history is its own process image (fresh statics, fresh thread-locals): the
+                // first uses of a history are first uses of the process, and the plan alone replays it
+                let out = std::process::Command::new(std::env::current_exe().unwrap())
+                    .args(["replay-hist", "--golden", &golden_path, "--plan"])
+                    .arg(plan.iter().map(|p| p.to_string()).collect::<Vec<_>>().join(","))
+                    .output()
+                    .expect("spawn of a history process");
+                if !out.status.success() {
+                    let m = String::from_utf8_lossy(&out.stdout).trim().to_string() + String::from_utf8_lossy(&out.stderr).trim();
                     println!("{{\"failed\":true,\"run\":{run},\"calls\":{calls},\"message\":{m:?},\"plan\":{plan:?}}}");
                     std::process::exit(1);
                 }
